@@ -11,7 +11,7 @@ INDEX_KINDS = ("range", "offset", "step2", "datetime", "period")
 
 # further supported index kinds, used on reduced families (probed on the pinned tree: all accepted; a decreasing
 # RangeIndex is rejected by sktime's input check and therefore not "supported")
-INDEX_KINDS_EXTRA = ("tz", "irregular", "named", "int64", "periodQ", "zstep3")
+INDEX_KINDS_EXTRA = ("tz", "irregular", "named", "int64", "periodQ", "zstep3", "tzfall")
 
 
 def make_index(kind, n):
@@ -23,6 +23,8 @@ def make_index(kind, n):
         return pd.RangeIndex(n, name="t")
     if kind == "int64":
         return pd.Index(np.cumsum(1 + (np.arange(n) * 3) % 4) + 2)
+    if kind == "tzfall":  # hourly across the autumn change of a DST zone: the local wall-clock hour 02:00 occurs twice
+        return pd.date_range("2023-10-29 00:00", periods=n, freq="h", tz="Europe/Oslo")
     if kind == "zstep3":  # starts at 0 like the default index, but its labels are NOT positions
         return pd.RangeIndex(0, 3 * n, 3)
     if kind == "periodQ":
